@@ -156,6 +156,14 @@ def r13b(ctx):
         (ctx.ok if good else ctx.bad)(f"_repartition.{fn.name}", mod.loc(fn), "forces first boundary 0 and last boundary = partition count" if good else "the boundary normaliser no longer forces the first boundary to 0 and the last to the partition count")
     tm = model.cls("RepartitionToMore")
     ns = model.method(tm, "_nsplits", own=True).node
-    t = ast.unparse(ns)
-    good = "divmod(self.new_partitions, df.npartitions)" in t.replace("self.frame", "df") and "+= mod" in t
+    from sa.rules.util import pfind
+
+    good = False
+    nsdefs = flow.Defs(ns)
+    for a, b in pfind("(V_div, V_mod) = divmod(self.new_partitions, V_n)", ns):
+        n_x = ast.unparse(nsdefs.expand(a.value.args[1], at=a))
+        base = pfind("V_ns = [V_div] * V_m", ns, {"V_div": b["V_div"]})
+        for _, b2 in base:
+            rest = pfind("V_ns[-1] += V_mod", ns, {"V_ns": b2["V_ns"], "V_mod": b["V_mod"]})
+            good = good or (n_x == "self.frame.npartitions" and bool(rest))
     (ctx.ok if good else ctx.bad)("_repartition.RepartitionToMore._nsplits", tm.module.loc(ns), "splits sum to the requested partition count (remainder added)" if good else "RepartitionToMore._nsplits no longer distributes new_partitions as div per partition plus the remainder: the output has a different partition count than reported")
